@@ -99,6 +99,20 @@ class SymH:
             self.ex.assume(z3.InRe(c, re))
         return SV(c)
 
+    def fp(self, name):
+        """a symbolic IEEE double (F-bits regime); finite and of moderate magnitude"""
+        from . import fp as _fp
+
+        v = _fp.fresh(name)
+        self.inputs[name] = v.e
+        self.ex.assume(z3.And(_fp.is_finite(v), z3.fpLT(z3.fpAbs(v.e), z3.FPVal(1e300, _fp.F64))))
+        return v
+
+    def fpconst(self, x):
+        from . import fp as _fp
+
+        return _fp.const(x)
+
     def const(self, v):
         """exact constant (use for every numeric literal handed to the code under test)."""
         if isinstance(v, float):
@@ -241,8 +255,12 @@ class SymH:
     def note(self, s):
         self.notes.append(s)
 
-    def policy(self, gather=None, sort=None, search=None, nonlinear=None, fold=None, mult_cap=None):
+    def policy(self, gather=None, sort=None, search=None, nonlinear=None, fold=None, mult_cap=None, fp_kernel=None):
         self.np.set_policy(gather=gather, sort=sort, search=search, fold=fold)
+        if fp_kernel is not None:
+            from . import rt as _rt
+
+            _rt.FP_MODE[0] = bool(fp_kernel)
         if mult_cap is not None:
             self.np.random.MULT_CAP[0] = mult_cap
         if nonlinear is not None:
@@ -323,6 +341,12 @@ class ConcH:
 
     def str(self, name, maxlen=None, alphabet=None):
         return str(self._get(name, ""))
+
+    def fp(self, name):
+        return float(self._get(name, 0.0))
+
+    def fpconst(self, x):
+        return float(x)
 
     def const(self, v):
         if isinstance(v, str):
@@ -611,6 +635,10 @@ def replay(run, params, witness, tol=1e-9, patch_rng=True):
 
 
 def _val(m, c):
+    if z3.is_fp(c):
+        from . import fp as _fp
+
+        return repr(_fp.value(m, _fp.FPV(c)))
     v = m.eval(c, model_completion=True)
     if z3.is_int_value(v):
         return v.as_long()
@@ -682,8 +710,24 @@ class Runner:
             ex.solver.add(ex.defs)
         ex.solver.add(neg)
         r = ex.check()
+        first_model = None
         if r == "unknown":
             r = self._retry_unknown(ex)
+            if r == "unknown":
+                # a fresh, non-incremental solver on the same assertions (often much faster for FP / mixed queries)
+                try:
+                    s3 = z3.Solver()
+                    s3.set("timeout", self.query_timeout_ms)
+                    s3.add(ex.solver.assertions())
+                    t1 = time.time()
+                    r3 = str(s3.check())
+                    ex.stats["solver_s"] += time.time() - t1
+                    if r3 == "unsat":
+                        r = "unsat"
+                    elif r3 == "sat":
+                        r, first_model = "sat", s3.model()
+                except z3.Z3Exception:
+                    pass
         dt = time.time() - t0
         res["queries"] += 1
         verdict = r
@@ -692,7 +736,7 @@ class Runner:
         elif r == "unknown":
             res["inconclusive"].append({"obligation": name, "reason": "solver-unknown", "path": _trace_str(ex.trace)})
         else:
-            verdict = self._counterexample(h, name, ex)
+            verdict = self._counterexample(h, name, ex, first_model)
             if verdict == "unsat":
                 res["discharged"] += 1
         ex.solver.pop()
@@ -729,12 +773,12 @@ class Runner:
             w[f"rng!{c}"] = _val(m, c)
         return w
 
-    def _counterexample(self, h, name, ex):
+    def _counterexample(self, h, name, ex, first_model=None):
         """solver state: PC and negated obligation asserted; model available."""
         tried = 0
         last = None
         # first try an exactly representable (dyadic) witness, then raw models
-        attempts = []
+        attempts = [first_model] if first_model is not None else []
         reals = [c for c in h.inputs.values() if c.sort() == z3.RealSort()]
         if reals:
             ex.solver.push()
@@ -762,7 +806,7 @@ class Runner:
                 self._violation(name, w, rp, kind="exception-in-replay")
                 return "sat-reproduced"
             # block this model on the declared inputs and try another
-            blk = [c != m.eval(c, model_completion=True) for c in h.inputs.values()]
+            blk = [(z3.Not(z3.fpEQ(c, m.eval(c, model_completion=True))) if z3.is_fp(c) else c != m.eval(c, model_completion=True)) for c in h.inputs.values()]
             if not blk:
                 break
             ex.solver.add(z3.Or(blk))
@@ -801,6 +845,9 @@ class Runner:
 
             snp.set_policy(gather="ite", sort="ite", search="auto", fold=False)
             snp.random.MULT_CAP[0] = None
+            from . import rt as _rt
+
+            _rt.FP_MODE[0] = False
             runner.ex.defer_nonlinear = False
             snp.declare_float_atoms([])
             h = SymH(runner)
